@@ -39,6 +39,12 @@ def units(tier):
     for nf in (1, 2):
         us.append(Unit(D.AddChild, {'nfiles': nf, 'is_root': False}))
     us.append(Unit(D.AddChild, {'nfiles': 1, 'is_root': False, 'dirname': 'RR_MOVED'}))
+    # the list of children sorted by Rock Ridge name: no two entries with one name (K69), removed entries gone from it (K77)
+    for n in (0, 1, 2, 3):
+        us.append(Unit(D.RRChildAdd, {'n': n}))
+    us.append(Unit(D.RRChildAdd, {'n': 2, 'dirname': 'RR_MOVED'}))
+    for n, i in ((1, 0), (2, 0), (2, 1), (3, 0), (3, 1), (3, 2)):
+        us.append(Unit(D.RRChildRemove, {'n': n, 'index': i}))
     return us
 
 
